@@ -171,6 +171,7 @@ type wpoint struct {
 }
 
 type writeRec struct {
+	writer  int
 	op      string
 	points  []wpoint
 	err     error
@@ -292,11 +293,14 @@ func (w *world) chunksAtBroker() int {
 	return n
 }
 
-func (w *world) doOp(ctx context.Context, up *iscp.Upstream, op string) {
+func (w *world) doOp(ctx context.Context, up *iscp.Upstream, op string, writer ...int) {
 	w.opCounter++
 	base := time.Duration(w.opCounter * 10)
 	mk := func(id message.DataID, pl ...string) {
 		rec := writeRec{op: op}
+		if len(writer) > 0 {
+			rec.writer = writer[0]
+		}
 		// a single writer reuses one argument slice with spare capacity for every call (the library must not
 		// retain the variadic slice: it belongs to the caller again once WriteDataPoints has returned)
 		var dps []*message.DataPoint
@@ -432,7 +436,7 @@ func (w *world) main() {
 				defer wg.Done()
 				for i, op := range w.p.Ops {
 					if i%w.p.Writers == k {
-						w.doOp(ctx, up, op)
+						w.doOp(ctx, up, op, k)
 					}
 				}
 			})
@@ -500,7 +504,14 @@ func (w *world) oracleC01(v *vlib.Verdict) {
 	u := w.b.Ups[0]
 	// 1. multiset
 	var want []string
-	perID := map[message.DataID][]string{}
+	// order is owed per data id among writes that are ordered themselves: those of one writer thread
+	// (writes of different threads are concurrent, either order is a correct delivery)
+	type idw struct {
+		id message.DataID
+		w  int
+	}
+	perID := map[idw][]string{}
+	writerOf := map[string]int{}
 	total := 0
 	for _, wr := range w.writes {
 		if wr.err != nil {
@@ -508,7 +519,8 @@ func (w *world) oracleC01(v *vlib.Verdict) {
 		}
 		for _, p := range wr.points {
 			want = append(want, pkey(p.id, p.elapsed, p.payload))
-			perID[p.id] = append(perID[p.id], pkey(p.id, p.elapsed, p.payload))
+			perID[idw{p.id, wr.writer}] = append(perID[idw{p.id, wr.writer}], pkey(p.id, p.elapsed, p.payload))
+			writerOf[pkey(p.id, p.elapsed, p.payload)] = wr.writer
 			total++
 		}
 	}
@@ -548,9 +560,15 @@ func (w *world) oracleC01(v *vlib.Verdict) {
 		}
 		v.Fail("C01.multiset", kind, "points at broker %v != points written %v", sg, sw)
 	} else {
-		for id, ws := range perID {
-			if strings.Join(ws, "|") != strings.Join(gotPerID[id], "|") {
-				v.Fail("C01.order", "per-id", "data id %s: broker order %v != write order %v", id.Name, gotPerID[id], ws)
+		for k, ws := range perID {
+			var gs []string
+			for _, g := range gotPerID[k.id] {
+				if writerOf[g] == k.w {
+					gs = append(gs, g)
+				}
+			}
+			if strings.Join(ws, "|") != strings.Join(gs, "|") {
+				v.Fail("C01.order", "per-id", "data id %s (writer %d): broker order %v != write order %v", k.id.Name, k.w, gs, ws)
 			}
 		}
 	}
